@@ -903,6 +903,8 @@ class Interp:
                 import inspect as _inspect
 
                 return getattr(getattr(_inspect, obj.name.split(".")[1]), attr)  # constants of the inspect module (parameter kinds, the `empty` marker)
+            if obj.name == "os" and attr in ("sep", "pathsep", "linesep", "curdir", "pardir", "extsep"):
+                return {"sep": "/", "pathsep": ":", "linesep": "\n", "curdir": ".", "pardir": "..", "extsep": "."}[attr]  # the virtual file system is POSIX
             if obj.name == "re" and attr.isupper():
                 import re as _re
 
